@@ -25,7 +25,8 @@ class Game(AsyncMode):
 
     __slots__ = ["_balls_in_play", "player_list", "slam_tilted", "tilted", "ending", "num_players",
                  "_stopping_modes", "_stopping_queue", "_end_ball_event", "_at_least_one_player_event",
-                 "balls_per_game", "max_players", "_player_add_pending"]
+                 "balls_per_game", "max_players", "_player_add_pending", "_players_adding",
+                 "_player_add_closed"]
 
     def __init__(self, *args, **kwargs):
         """Initialize game."""
@@ -45,6 +46,8 @@ class Game(AsyncMode):
         self.balls_per_game = None
         self.max_players = None
         self._player_add_pending = False
+        self._players_adding = []
+        self._player_add_closed = False
 
         self.machine.events.add_handler('mode_{}_stopping'.format(self.name), self._stop_game_modes)
 
@@ -60,6 +63,8 @@ class Game(AsyncMode):
         self.ending = False
         self.num_players = 0
         self._player_add_pending = False
+        self._players_adding = []
+        self._player_add_closed = False
         self._balls_in_play = 0
         self._stopping_modes = []
         self._stopping_queue = None
@@ -103,6 +108,9 @@ class Game(AsyncMode):
             elif not self.ending:
                 # do not make another player the current one when the game was ended manually. nobody would be told
                 await self._rotate_players()
+                # we might have waited for the next player to be added
+                if self.slam_tilted:
+                    self.ending = True
 
         await self._end_game()
 
@@ -132,15 +140,16 @@ class Game(AsyncMode):
 
         # Sometimes game_starting handlers will add players, so we only
         # have to add one here if there aren't any players yet.
-        if self.player_list:
-            self._at_least_one_player_event.set()
-        else:
-            self._at_least_one_player_event.clear()
+        if not self.player_list:
             self.request_player_add()
 
-        # Wait for player to be added before game can start
+        # Wait for the first player to be added completely before game can
+        # start. Do not wait when the game has been ended in the meantime
+        # because nobody can join anymore in that case.
         # TODO: Add timeout to wait
-        await self._at_least_one_player_event.wait()
+        while not self.player and not self.ending:
+            self._at_least_one_player_event.clear()
+            await self._at_least_one_player_event.wait()
 
         await self.machine.events.post_async('game_started')
         '''event: game_started
@@ -486,6 +495,8 @@ class Game(AsyncMode):
         """
         self.ending = True
         self.end_ball()
+        # do not wait for the first player any longer
+        self._at_least_one_player_event.set()
 
     def _game_ending_completed(self, **kwargs):
         del kwargs
@@ -555,7 +566,8 @@ class Game(AsyncMode):
             self.debug_log("Game is at max players. Cannot add another.")
             return False
 
-        if self.player and self.player.ball > 1:  # todo config setting
+        # todo config setting
+        if self._player_add_closed or (self.player and self.player.ball > 1):
             self.debug_log("Current ball is after Ball 1. Cannot add player.")
             return False
 
@@ -601,6 +613,7 @@ class Game(AsyncMode):
 
         self.player_list.append(player)
         self.num_players = len(self.player_list)
+        self._players_adding.append(player)
 
         self.machine.events.post_queue('player_adding',
                                        player=player,
@@ -623,6 +636,11 @@ class Game(AsyncMode):
         The add player process can now finish.
         """
         del kwargs
+        if player not in self._players_adding:
+            # a new game started while the player was adding to the previous one
+            return False
+
+        self._players_adding.remove(player)
         self.machine.events.post('player_added',
                                  player=player,
                                  num=player.number,
@@ -786,8 +804,16 @@ class Game(AsyncMode):
             # i.e. "Player 1" has an index of 0, etc. So using the current
             # player number as the next player's index works out.
         else:
-            # no current player, grab the first one
+            if self.player:
+                # all players played their first ball. nobody can join anymore
+                self._player_add_closed = True
+            # no current player (or last player), grab the first one
             self.player = self.player_list[0]
+
+        # player_adding is a queue event. wait until the player has been added completely
+        while self.player in self._players_adding:
+            self._at_least_one_player_event.clear()
+            await self._at_least_one_player_event.wait()
 
         self.debug_log("Player rotate: Now up is Player %s",
                        self.player.number)
